@@ -506,7 +506,15 @@ class Check:
         self.corr_breaks.append({"correspondence": what, "case": jsonable(case), "impl": jsonable(impl),
                                  "model": jsonable(model), "theorems_resting_on_it": list(theorems)})
 
-    def known(self, fid: str):
+    def known(self, fid: str, case=None, impl=None, model=None):
+        """a case inside the narrow class of listed finding `fid` that fails in the listed way.  Only an OPEN entry
+        of KNOWN_FINDINGS.json excuses it; a fixed (or unlisted) finding observed again is a violation."""
+        f = next((x for x in self.findings if x.get("id") == fid), None)
+        if f is None or f.get("status") != "open":
+            what = ("listed as fixed in %s" % f.get("commit")) if f else "not listed in KNOWN_FINDINGS.json"
+            self.violation("the behaviour of finding %s (%s) is observed on this tree: %s"
+                           % (fid, what, (f or {}).get("what", "")), case, impl=impl, model=model)
+            return
         self.known_hits[fid] = self.known_hits.get(fid, 0) + 1
 
     # ---- finish
